@@ -204,13 +204,18 @@ def make_shards(cases, njobs):
         n = max(1, min(njobs, len(cs)))
         bins = [[] for _ in range(n)]
         loads = [0.0] * n
-        for c in sorted(cs, key=lambda c: -c.get("cost", 1.0)):
+        # equal-cost cases are dealt out in a hashed (deterministic, id-derived) order, not in generation order: generators
+        # cycle through kinds with small periods (i % 2, i % 4, ...) and a round-robin deal over 16 children would give
+        # every child one residue class only -- a child must see a MIX of kinds so that state leaking from one
+        # calculation / object construction into the next (class-level or module-level state) is exercised
+        hk = lambda c: hashlib.sha1(str(c["id"]).encode()).hexdigest()
+        for c in sorted(cs, key=lambda c: (-c.get("cost", 1.0), hk(c))):
             i = loads.index(min(loads))
             bins[i].append(c)
             loads[i] += c.get("cost", 1.0)
         for b in bins:
             if b:
-                b.sort(key=lambda c: c["id"])
+                b.sort(key=hk)
                 shards.append((fl, b))
     return shards
 
@@ -256,6 +261,10 @@ def run(prop, tier, seed, replay=None, jobs=None, keep=False):
         with open(replay) as f:
             rp = json.load(f)
         cases = rp["cases"] if "cases" in rp else [rp["case"]]
+        if rp.get("sequence"):
+            # the recorded child-process history up to the violating case: replay it in one child, in that order
+            for c in cases:
+                c.setdefault("proc", "__replay__")
         seed = rp.get("seed", seed)
         tier = rp.get("tier", tier)
     else:
@@ -274,6 +283,11 @@ def run(prop, tier, seed, replay=None, jobs=None, keep=False):
     case_timeout = getattr(P, "CASE_TIMEOUT", 300)
     try:
         shards = make_shards(cases, jobs)
+        shard_of = {}
+        for _, cs in shards:
+            seq = [c["id"] for c in cs]
+            for c in cs:
+                shard_of[c["id"]] = seq
         results = []
         with cf.ThreadPoolExecutor(jobs) as ex:
             futs = [ex.submit(run_shard, prop, cs, overlays[fl], fl, workdir,
@@ -443,8 +457,14 @@ def run(prop, tier, seed, replay=None, jobs=None, keep=False):
             cid = v.get("case")
             path = os.path.join(rdir, "%s.json" % (str(cid).replace("/", "_") if cid else "global"))
             grp = v.get("cases") or ([cid] if cid else [])
+            sequence = False
+            if not v.get("cases") and cid in byid and byid[cid].get("proc") is None and not replay:
+                # what ran before this case in the same child process may matter (state kept between calls)
+                seq = shard_of.get(cid, [cid])
+                grp = seq[:seq.index(cid) + 1]
+                sequence = len(grp) > 1
             with open(path, "w") as f:
-                json.dump({"property": prop, "seed": seed, "tier": tier,
+                json.dump({"property": prop, "seed": seed, "tier": tier, "sequence": sequence,
                            "cases": [byid[i] for i in grp if i in byid],
                            "violation": v, "observed": json.loads(jdump(obs.get(cid, {})))}, f, indent=1, default=_jdefault)
             permech[v["mech"]] = permech.get(v["mech"], 0) + 1
